@@ -157,10 +157,26 @@ def _inflight_probe(frame) -> dict:
     return out
 
 
+def _call_at_depth(n: int, fn):
+    """Call fn() from n extra Python frames (the caller's stack depth is not an input)."""
+    if n <= 0:
+        return fn()
+    return _call_at_depth(n - 1, fn)
+
+
 def _pkgdir() -> str:
     import oneliner
 
     return os.path.dirname(os.path.realpath(oneliner.__file__))
+
+
+_ADDR_RE = __import__("re").compile(r"0x[0-9a-fA-F]{4,}")
+
+
+def _msg(e: BaseException, n: int = 300) -> str:
+    """Exception text with object addresses masked (`<ast.Name object at 0x7f...>`): an address
+    in an error message is not part of any result."""
+    return _ADDR_RE.sub("0x?", str(e))[:n]
 
 
 def _outcome_of_call(fn) -> dict:
@@ -172,7 +188,7 @@ def _outcome_of_call(fn) -> dict:
     except MemoryError:
         return {"out": "exc", "exc": ["MemoryError", ""]}
     except BaseException as e:  # noqa: BLE001 - the outcome *is* the exception
-        return {"out": "exc", "exc": [type(e).__name__, str(e)[:300]]}
+        return {"out": "exc", "exc": [type(e).__name__, _msg(e)]}
     if not isinstance(text, str):
         return {"out": "nonstr", "repr": repr(text)[:200]}
     norm = normalise(text)
@@ -195,13 +211,19 @@ def child_ref(arg) -> dict:
         res = _outcome_of_call(lambda: oneliner.convert_code_string(src))
         return res
     o = Configs()
-    _apply_model(o, model)
+    try:
+        _apply_model(o, model)
+    except BaseException as e:  # noqa: BLE001
+        # the model holds a value the API refuses to set on a fresh object (it was read back from
+        # a copied/deleted-from object): that state cannot be produced in a fresh process, so there
+        # is nothing to compare with
+        return {"out": "unreachable-model", "exc": [type(e).__name__, str(e)[:200]]}
     if with_text:
         try:
             text = oneliner.convert_code_string(src, configs=o)
             return {"out": "ok", "text": text, "norm": normalise(text)}
         except BaseException as e:  # noqa: BLE001
-            return {"out": "exc", "exc": [type(e).__name__, str(e)[:300]]}
+            return {"out": "exc", "exc": [type(e).__name__, _msg(e)]}
     return _outcome_of_call(lambda: oneliner.convert_code_string(src, configs=o))
 
 
@@ -314,12 +336,14 @@ def child_history(desc: dict) -> dict:
     mon_tripped = False
     total_lines = 0
 
-    def convert(src, oid, filename=None):
+    def convert(src, oid, filename=None, depth=0):
         kw = {}
         if filename is not None:
             kw["filename"] = filename
         if oid is not None:
             kw["configs"] = objs[oid]
+        if depth:
+            return _call_at_depth(depth, lambda: oneliner.convert_code_string(src, **kw))
         return oneliner.convert_code_string(src, **kw)
 
     def run_op(op):
@@ -346,6 +370,37 @@ def child_history(desc: dict) -> dict:
             if op.get("gc"):
                 gc.collect()
             return ev
+        if kind == "burst":
+            # many conversions in a row (state that changes behaviour after N calls)
+            oid = op.get("obj")
+            if oid is not None and oid not in objs:
+                ev["skip"] = True
+                return ev
+            src = src_of(op)
+            ev["prog"] = prog_id(op)
+            ev["obj"] = oid
+            ev["mkey"] = None if oid is None else mkey(models[oid])
+            outs = {}
+            first_at = {}
+            for i in range(op["n"]):
+                r = _outcome_of_call(lambda: convert(src, oid))
+                key = r.get("sha") or cjson(r.get("exc"))
+                outs[key] = r
+                first_at.setdefault(key, i)
+            ev["burst"] = [dict(outs[k], first_at=first_at[k]) for k in sorted(outs)]
+            return ev
+        if kind == "env":
+            # the caller's process state changes between calls; none of it is an input of a conversion
+            what = op["what"]
+            if what == "chdir":
+                os.chdir(op["value"])
+            elif what == "argv":
+                sys.argv = list(op["value"])
+            elif what == "environ":
+                os.environ[op["name"]] = op["value"]
+            elif what == "recursionlimit":
+                sys.setrecursionlimit(op["value"])
+            return ev
         if kind == "churn":
             # create many option objects, set an option on each, drop them all: afterwards the
             # allocator's free lists are full of addresses that once belonged to option objects
@@ -358,7 +413,7 @@ def child_history(desc: dict) -> dict:
                 ev["out"] = "ok"
             except BaseException as e:  # noqa: BLE001
                 ev["out"] = "exc"
-                ev["exc"] = [type(e).__name__, str(e)[:200]]
+                ev["exc"] = [type(e).__name__, _msg(e, 200)]
             del tmp
             t = None
             if op.get("gc"):
@@ -381,7 +436,7 @@ def child_history(desc: dict) -> dict:
                 ev["out"] = "ok"
             except BaseException as e:  # noqa: BLE001
                 ev["out"] = "exc"
-                ev["exc"] = [type(e).__name__, str(e)[:200]]
+                ev["exc"] = [type(e).__name__, _msg(e, 200)]
             return ev
         if kind == "delattr":
             oid = op["obj"]
@@ -391,10 +446,17 @@ def child_history(desc: dict) -> dict:
             try:
                 delattr(objs[oid], op["name"])
                 ev["out"] = "ok"
-                models[oid].pop(op["name"], None)
+                # what a successful delete means is not stated by the property: pin the model to
+                # what the object reports afterwards
+                got = _read_obj(objs[oid]).get(op["name"])
+                ev["readback"] = got
+                if isinstance(got, str) and not got.startswith("!"):
+                    models[oid][op["name"]] = got
+                else:
+                    models[oid].pop(op["name"], None)
             except BaseException as e:  # noqa: BLE001
                 ev["out"] = "exc"
-                ev["exc"] = [type(e).__name__, str(e)[:200]]
+                ev["exc"] = [type(e).__name__, _msg(e, 200)]
             return ev
         if kind in ("set", "abort_set"):
             oid = op["obj"]
@@ -410,7 +472,7 @@ def child_history(desc: dict) -> dict:
                     models[oid][name] = value
                 except BaseException as e:  # noqa: BLE001
                     ev["out"] = "exc"
-                    ev["exc"] = [type(e).__name__, str(e)[:200]]
+                    ev["exc"] = [type(e).__name__, _msg(e, 200)]
                 return ev
             inj = Injector(pkgdir, "line", k=op["k"], exc=op.get("exc", "SimAbort"))
             sys.settrace(inj.trace)
@@ -419,7 +481,7 @@ def child_history(desc: dict) -> dict:
                 ev["out"] = "ok"
             except BaseException as e:  # noqa: BLE001
                 ev["out"] = "exc"
-                ev["exc"] = [type(e).__name__, str(e)[:200]]
+                ev["exc"] = [type(e).__name__, _msg(e, 200)]
             finally:
                 sys.settrace(None)
             total_lines += inj.lines
@@ -453,8 +515,9 @@ def child_history(desc: dict) -> dict:
             fname = op.get("filename")
             if fname is not None:
                 ev["filename"] = fname
+            depth = op.get("depth", 0)
             if kind == "conv":
-                ev.update(_outcome_of_call(lambda: convert(src, oid, fname)))
+                ev.update(_outcome_of_call(lambda: convert(src, oid, fname, depth)))
                 return ev
             inj = Injector(pkgdir, op["mode"], k=op.get("k", 0), func=op.get("func"), j=op.get("j", 0),
                            exc=op.get("exc", "SimAbort"))
@@ -588,6 +651,21 @@ def judge(ctx: C10Ctx, desc: dict, result: dict) -> list:
             # an illegal set must raise; a legal one must not (part of 'options passed to that
             # call' being well defined).  Reported only through later conversions (monitor).
             continue
+        if kind == "burst":
+            op = ops[i]
+            src = src_of(op)
+            mk = ev["mkey"]
+            expect = ctx.ref(ev["prog"], src, "-|-|-", {}) if mk is None else ctx.ref(ev["prog"], src, mk, model_from_key(mk))
+            for r in ev["burst"]:
+                if expect.get("out") == "unreachable-model":
+                    break
+                if not same_outcome(r, expect):
+                    viols.append({"oracle": "O1", "class": "text-differs" if r.get("out") == "ok" == expect.get("out") else
+                                  "%s-vs-ref-%s" % (r.get("out"), expect.get("out")), "event": i, "prog": ev["prog"], "mkey": mk,
+                                  "got": {k: r.get(k) for k in ("out", "sha", "exc", "len", "first_at")},
+                                  "expected": {k: expect.get(k) for k in ("out", "sha", "exc", "len")}, "ext": False})
+                    break
+            continue
         if kind != "conv":
             continue
         op = ops[i] if i < len(ops) else {"op": "conv", "prog": progs.SENTINEL, "obj": ev.get("obj")}
@@ -599,6 +677,8 @@ def judge(ctx: C10Ctx, desc: dict, result: dict) -> list:
             expect = ctx.ref(pid, src, "-|-|-", {})
         else:
             expect = ctx.ref(pid, src, mk, model_from_key(mk))
+        if expect.get("out") == "unreachable-model":
+            continue
         if ev.get("filename") is not None and ev.get("out") == "exc" and expect.get("out") == "exc" \
                 and ev["exc"][0] == expect["exc"][0]:
             continue  # SyntaxError messages legitimately quote the file name passed by the caller
@@ -653,10 +733,18 @@ def gen_history(seed: int, ctx: C10Ctx, knobs: dict | None = None) -> dict:
     models: dict[str, dict] = {}
     saved = 0
 
+    variant_rate = rng.choice([0.0, 0.0, 0.15, 0.4])
+    burst_rate = rng.choice([0.0, 0.0, 0.0, 0.05])
+    env_rate = rng.choice([0.0, 0.0, 0.08])
+    depth_rate = rng.choice([0.0, 0.0, 0.2])
+
     def pick_prog():
         if inline and rng.random() < 0.4:
             return {"src": rng.choice(inline)}
-        return {"prog": rng.choice(sub_pool)}
+        key = rng.choice(sub_pool)
+        if rng.random() < variant_rate:
+            return {"src": progs.variant_of(POOL[key], rng)}
+        return {"prog": key}
 
     def pick_obj():
         if not live or rng.random() < none_rate:
@@ -763,10 +851,26 @@ def gen_history(seed: int, ctx: C10Ctx, knobs: dict | None = None) -> dict:
         if c2 < prng_rate + abort_rate + natural_rate + 0.03:
             ops.append({"op": "gc"})
             continue
+        if not last and rng.random() < burst_rate:
+            ops.append({"op": "burst", "prog": rng.choice(["short:two_stmts", "short:if_chain", "short:for_break", "short:capt2"]),
+                        "obj": pick_obj(), "n": rng.choice([40, 130, 300])})
+            continue
+        if not last and rng.random() < env_rate:
+            k = rng.random()
+            if k < 0.3:
+                ops.append({"op": "env", "what": "chdir", "value": rng.choice(["/", "/usr", "/tmp"])})
+            elif k < 0.6:
+                ops.append({"op": "env", "what": "argv", "value": rng.choice([["prog"], ["oneliner", "-Cunparser=oneliner", "x.py"], []])})
+            else:
+                ops.append({"op": "env", "what": "environ", "name": rng.choice(["ONELINER_UNPARSER", "PYTHONHASHSEED", "LANG", "ONELINER_DEBUG", "COLUMNS"]),
+                            "value": rng.choice(["oneliner", "1", "C", "list", "0"])})
+            continue
         op = {"op": "conv", "obj": pick_obj()}
         op.update(pick_prog())
         if rng.random() < filename_rate:
             op["filename"] = rng.choice(["x.py", "/abs/dir/mod.py", "<stdin>", ""])
+        if rng.random() < depth_rate and op.get("prog", "").startswith("short:"):
+            op["depth"] = rng.choice([40, 150, 250])
         ops.append(op)
     return {"prop": "C10", "seed": seed, "ops": ops, "extend": True}
 
@@ -792,7 +896,8 @@ def abstract_trace(desc: dict, result: dict):
         elif k == "copy" and ev.get("out") == "ok":
             models[op["id"]] = {n: v for n, v in (ev.get("readback") or {}).items() if isinstance(v, str)}
         elif k == "delattr" and ev.get("out") == "ok":
-            models.get(op["obj"], {}).pop(op["name"], None)
+            if isinstance(ev.get("readback"), str):
+                models.get(op["obj"], {})[op["name"]] = ev["readback"]
         elif k == "set" and ev.get("out") == "ok":
             models[op["obj"]][op["name"]] = op["value"]
         elif k == "abort_set" and ev.get("pinned") == "new":
@@ -927,6 +1032,7 @@ def register(tpl):
             agg["convs_checked"] += nconv
             if req.get("want_digests"):
                 agg["digests"][str(seed)] = digest([desc, result])
+                agg.setdefault("logs", {})[str(seed)] = {"ops": desc["ops"], "events": result["events"], "lines": result.get("lines")}
             if viols:
                 agg["failures"].append({"seed": seed, "desc": desc, "violations": viols})
             for k, v in probes_of(desc, result).items():
